@@ -127,7 +127,7 @@ def run(ctx):
     totals = {}
     for (f, b, t, kind, what) in all_sites:
         ok, rule, why = D.discharge(f, b, t, kind, what)
-        key = "%s/%s" % (short(f.name), what)
+        key = "%s/%s" % (short(f.name.split("::{closure")[0]), what)   # (a site moved into a closure of its function is the same site)
         if ok is None:
             # the argument that discharges this site on the pinned tree could not be evaluated on this code (its anchors moved)
             ctx.undecided("C07-census", key, "%s site `%s` in %s: %s" % (kind, what, f.name, why), where_of(f, t))
@@ -398,7 +398,7 @@ class Discharger:
     # -------------------------------------------------------------- dispatcher
     def discharge(self, f, b, t, kind, what):
         for rule in (self.d_arity, self.d_arity_user, self.d_dominating_test, self.d_checked_key, self.d_nonempty, self.d_container_variant, self.d_variant_runs,
-                     self.d_table, self.d_counter, self.d_total_cast, self.d_const_index, self.d_front_insert, self.d_front_remove, self.d_borrow, self.d_known_arith,
+                     self.d_table, self.d_counter, self.d_total_cast, self.d_const_index, self.d_front_insert, self.d_front_remove, self.d_bounds, self.d_borrow, self.d_known_arith,
                      self.d_const_input, self.d_div_guarded, self.d_zero_checked):
             r = rule(f, b, t, kind, what)
             if r is not None:
@@ -663,21 +663,47 @@ class Discharger:
 
     # -------------------------------------------------------------- D-checked-key
     def d_checked_key(self, f, b, t, kind, what):
-        if kind != "unwrap" or "{closure" not in f.name or not f.name.startswith("environment::LexicalScope::"):
+        if not f.name.startswith("environment::LexicalScope::"):
             return None
-        src = self._unwrap_src(f, t)
-        if not src or not callee_matches(src[1], "HashMap::get", "HashMap::get_mut"):
+        if kind == "std-panicky" and what in ("index", "index_mut") and "HashMap<" in " ".join(str(x) for x in (t.get("argtys") or [])[:1]):
+            src = (b, t)            # `map[name]`: panics on an absent key, like get(name).unwrap()
+        elif kind != "unwrap":
             return None
+        else:
+            src = self._unwrap_src(f, t)
+            if not src or not callee_matches(src[1], "HashMap::get", "HashMap::get_mut"):
+                return None
         parent = self.fb.by_path(f.name.split("::{closure")[0])
-        # semantic discharge: the scope-chain table (scopes.py) evaluates the primitive, its helpers and this closure on a
-        # chain of three frames for every subset of frames binding the name, and records any unwrap that meets None
-        pname = parent.name.rsplit("::", 1)[-1]
-        if pname in ("get", "get_mut", "set", "define"):
-            from . import scopes
-            rows = [scopes.walk(self.fb, pname, found) for found in scopes.subsets(3)]
-            if all("stuck" not in r and not r.get("panics") for r in rows):
-                return (True, "D-checked-key", "scope-chain table of LexicalScope::%s (8 rows, closures and helpers followed): "
-                        "the mapped lookup never meets an absent key" % pname)
+        # semantic discharge: the scope-chain table (scopes.py) evaluates the primitive, its helpers and closures on a
+        # chain of three frames for every subset of frames binding the name, and records any unwrap that meets None.
+        # The primitives concerned are the ones this function is (part of) or is called from.
+        from . import scopes
+        prims = ("get", "get_mut", "set", "define")
+        SC = "environment::LexicalScope::"
+        callers = self.fb.callers("lib")
+        users, todo, seen = set(), [parent.name], set()
+        while todo:
+            n = todo.pop()
+            if n in seen:
+                continue
+            seen.add(n)
+            short_ = n[len(SC):] if n.startswith(SC) else None
+            if short_ in prims:
+                users.add(short_)
+            for c_ in callers.get(n, ()):
+                c0 = c_.split("::{closure")[0]
+                if c0.startswith(SC):
+                    todo.append(c0)
+        if users:
+            rows = [(u, scopes.walk(self.fb, u, found)) for u in sorted(users) for found in scopes.subsets(3)]
+            bad = [(u, r["panics"]) for u, r in rows if r.get("panics")]
+            if bad:
+                return (False, "D-checked-key", "the scope-chain table reaches a failing lookup: LexicalScope::%s, %s" % bad[0])
+            if all("stuck" not in r for _, r in rows):
+                return (True, "D-checked-key", "scope-chain table of LexicalScope::%s (%d rows, closures and helpers followed): "
+                        "the mapped lookup never meets an absent key" % ("/".join(sorted(users)), len(rows)))
+        if "{closure" not in f.name:
+            return (None, "D-checked-key", "the scope-chain table could not follow the primitives that use this lookup")
         cks = [(bb, tt) for bb, tt in parent.calls() if callee_matches(tt, "HashMap::contains_key")]
         maps = [(bb, tt) for bb, tt in parent.calls() if callee_matches(tt, "Ref::map", "RefMut::map")]
         if len(cks) != 1 or len(maps) != 1:
@@ -766,7 +792,18 @@ class Discharger:
                              for _, _, s, a, v in mir.aggregates(g, None, "SchemeProcedure")})
             tpb = fb.find("parser::parser::Parser::transform_procedure_body")
             guard = any(v == "LambdaBodyNoExpression" for _, _, _, _, v in mir.aggregates(tpb))
-            okm = set(makers) <= {"parser::parser::Parser::transform_lambda", "parser::parser::Parser::transform_definition"}
+            # every maker takes the body it stores from transform_procedure_body (directly, or through `?`)
+            okm = bool(makers)
+            for g in fb.all("lib"):
+                if g.derived:
+                    continue
+                pg = None
+                for _, _, s_, a_, v_ in mir.aggregates(g, None, "SchemeProcedure"):
+                    pg = pg or Prov(g)
+                    ops_ = s_["rv"]["ops"]
+                    roots_ = {c_ for _, c_ in pg.call_roots(ops_[-1])} if ops_ else set()
+                    if not any((c_ or "").endswith("Parser::transform_procedure_body") for c_ in roots_):
+                        okm = False
             self.ctx.assume("hand-built ASTs that violate parser invariants (empty procedure body) are outside the property")
             return allow(1, "parser invariant: SchemeProcedure is built only by %s after transform_procedure_body rejected an empty body" % makers, okm and guard)
         if name.endswith("ParameterFormalsBody>>::as_name") and what == "unreachable":
@@ -861,6 +898,34 @@ class Discharger:
         i = mir.trace_const(f, t["args"][1])
         if i and i.get("val") == 0:
             return (True, "D-front-insert", "insertion at the constant index 0 (an index <= len for every vector)")
+        return None
+
+    def d_bounds(self, f, b, t, kind, what):
+        """index / removal below the length, unsigned subtraction that cannot go below zero, and sums of lengths and indices:
+        decided from the tests that dominate the site (bounds.py)"""
+        from . import bounds
+        if kind == "std-panicky" and what in bounds.INDEXED:
+            why = bounds.index_in_range(f, b, t)
+            if why:
+                return (True, "D-len-guard", why)
+            return None
+        if kind == "assert" and what in ("Overflow:Sub", "Overflow:Add"):
+            cl = mir.op_place(t["cond"]) if t.get("cond") else None
+            if cl is None:
+                return None
+            for s in reversed(f.blocks[b]["stmts"]):
+                if s["k"] == "assign" and s["place"]["local"] == cl["local"] and s["rv"]["k"] == "binop":
+                    rv = s["rv"]
+                    if rv.get("lty") != "usize":
+                        return None
+                    if rv["op"] == "SubWithOverflow":
+                        why = bounds.sub_no_underflow(f, b, rv)
+                        if why:
+                            return (True, "D-len-guard", why)
+                    if rv["op"] == "AddWithOverflow" and bounds.memory_bounded(f, rv["l"]) and bounds.memory_bounded(f, rv["r"]):
+                        return (True, "D-interval", "sum of lengths / indices / small constants: bounded by what is already in memory "
+                                                    "(a container holds at most isize::MAX items)")
+                    return None
         return None
 
     def d_front_remove(self, f, b, t, kind, what):
@@ -993,6 +1058,9 @@ class Discharger:
             return None
         op = "Neg" if what.startswith("OverflowNeg") else (what.split(":", 1)[1] if ":" in what else what)
         op = {"mul": "Mul", "add": "Add", "sub": "Sub"}.get(op, op)
+        if (f.name, op) in self._fails and len(self._fails[(f.name, op)]) > 3 and self._fails[(f.name, op)][3] is None:
+            return (None, "D-interval", "interval analysis cannot bound the i32 %s (case %s) and no boundary operand makes it overflow: "
+                    "the operands are related in a way intervals do not express" % (op, self._fails[(f.name, op)][0]))
         if (f.name, op) in self._fails:
             return (False, "D-interval", "the i32 %s can leave the i32 range for some operands (interval analysis, case %s): the "
                     "checked build panics" % (op, self._fails[(f.name, op)][0]))
@@ -1002,7 +1070,8 @@ class Discharger:
     def d_div_guarded(self, f, b, t, kind, what):
         if kind != "assert" or not (what.startswith("DivisionByZero") or what.startswith("RemainderByZero")):
             return None
-        if f.name == "<values::Number as std::ops::Div>::div":
+        DIVF = "<values::Number as std::ops::Div>::div"
+        if f.name.split("::{closure")[0] == DIVF:
             # symbolic table (numtables.zero_guard_table): on every path that reaches one of the compiler's divide-by-zero assertions
             # the tests passed so far exclude a zero divisor
             from . import numtables
@@ -1014,6 +1083,8 @@ class Discharger:
                 return (True, "D-div-guarded", "on every path to the assertion the tests passed exclude a zero divisor (symbolic table, C09-exact)")
             if self._zg is False:
                 return (False, "D-div-guarded", "the division is reached with a zero divisor (C09-exact/div/zero-guards)")
+            if f.name != DIVF:
+                return (None, "D-div-guarded", "the division sits in a closure of Number::div and the symbolic table could not follow it")
             # shared rule: the divisor passed check_division_by_zero on this path
             from .c08 import div_zero_rule
             sub = Ctx("C08", self.ctx.tier, self.ctx.seed)
